@@ -42,7 +42,7 @@ func TestVerif(t *testing.T) {
 		},
 		Jobs:           jobs,
 		BudgetQuick:    200,
-		BudgetThorough: 1500,
+		BudgetThorough: 2400,
 	})
 }
 
